@@ -7,6 +7,11 @@ BASE = json.load(open('/root/.vp/BASELINE.json'))['cmd'] if os.path.exists('/roo
 
 # id -> (engine, category, technique, level text, level note, design ref)
 CHECKS = {
+ "C02": ("E2-space", "model_checking",
+         "exhaustive enumeration of a bounded input space (corpora × layouts × query trees × options × engines) against a three-valued reference evaluator",
+         "Every member of the product {all subsets ≤3 of a 12-document alphabet + full corpus} × 3 physical layouts (one segment, segment per document, churn with deletes/updates) × query trees (≈85 leaves, all ordered pairs under 16 compound forms, a depth-3 family) × 8 request option sets × {scorch, upsidedown} × 5 searcher tuning settings is run on the real index and compared with an independent evaluator over the analysed tokens of the live documents: hit set, duplicates, Total, option independence.",
+         "Vocabulary and corpus alphabet are fixed and small (chosen so that postings collide); fuzzy is three-valued between Levenshtein and Damerau; analysis output is taken from the mapping (C19 covers analysis).",
+         "DESIGN.md §5 C02"),
  "C07": ("E2-space", "model_checking",
          "exhaustive enumeration of a bounded input space (boundary lattice, all pairs/tuples) against an interval-arithmetic reference",
          "All ordered pairs of a boundary lattice of float64 values (order, round trip, every precision shift); every (min,max,flags,open-end) tuple of the lattice through the real range searcher over a recording stub dictionary: the candidate terms must be pairwise disjoint intervals whose union is exactly the requested interval — an interval argument that settles membership for all 2^64 values of that tuple — within a probe budget (termination); end-to-end range and sort queries on both engines for numeric and date fields. Exhaustive within the lattice, nothing sampled.",
